@@ -109,9 +109,11 @@ func Harness_C03_preissuer() {
 	issuerAKI := vBytes("issuer-aki", 3)
 	others := c.others
 	akiPos := -1
+	akiCritical := false // the precertificate's own criticality flag survives a replacement of the value
 	if certHasAKI {
 		akiPos = vChoice("aki-position", len(others)+1)
-		others = c03With(others, akiPos, c03Ext(c03OIDAKI, false, certAKI))
+		akiCritical = vChoice("aki-critical", 2) == 1
+		others = c03With(others, akiPos, c03Ext(c03OIDAKI, akiCritical, certAKI))
 	}
 	pre := c03TBS(c.serial, c.sigOID, c.issuer, c.subject, c.keyBits, c03With(others, vChoice("poison-position", len(others)+1), poison))
 	finalIssuer := derTLV(0x30, derTLV(0x31, derTLV(0x30, []byte{0x06, 0x03, 0x55, 0x04, 0x0a}, derTLV(0x0c, vBytes("final-issuer-o", 2)))))
@@ -135,7 +137,7 @@ func Harness_C03_preissuer() {
 	var wantExts [][]byte
 	switch {
 	case certHasAKI && issuerHasAKI:
-		wantExts = c03With(c.others, akiPos, c03Ext(c03OIDAKI, false, issuerAKI))
+		wantExts = c03With(c.others, akiPos, c03Ext(c03OIDAKI, akiCritical, issuerAKI))
 		vReach("replaced")
 	case certHasAKI && !issuerHasAKI:
 		wantExts = c.others
